@@ -4,7 +4,7 @@ internal/dnsforward on every run (AGH/Gen/C08Facts.lean).  They state the
 structure the model of `processQueryLogsAndStats` relies on:
 
 * the query log is written (`QueryLog.Add`) only in `logQuery`, the statistics
-  (`stats.Update`) only in `updateStats`; `logQuery` is called only in the
+  (`stats.Update`) only in `updateStats`; `logQuery` (method of *Server or package-level function) is called only in the
   then-branch of `if s.shouldLog(…, ids)`, `updateStats` only in the
   then-branch of `if s.shouldCountStat(…, ids)`, both only in
   `processQueryLogsAndStats`; the deciders hand `ids` on to
